@@ -134,7 +134,12 @@ CLAIMED["C04"] = dict(
          "window's acceptance, and at-most-once holds while copies arrive at most 256 numbers late (C04_message_once_partial); beyond "
          "that the model (and the code) re-deliver - C04_redelivery_witness. Two genuine defects are recorded as known findings "
          "(late retransmission beyond the window; re-sent fragments under new message numbers), each with a deterministic witness "
-         "replayed on every run. Model tied to connection.py by two-party differentials under heavy duplication/delay/replay.",
+         "replayed on every run. Model tied to connection.py by two-party differentials under heavy duplication/delay/replay. At the "
+         "handler (observe_at: EventHandler.handle_message): in the server-loop model the dispatch of the connected branch hands over every "
+         "queued message exactly once and leaves the queue empty, and a datagram for a half-open or unknown address produces no message "
+         "event (C04_loop_dispatch_once, C04_loop_dispatch_clears, C04_loop_halfopen_no_dispatch, C04_loop_connected_dispatch); tied by "
+         "recorded runs of the real UdpServerThread.run with duplicates within and across iterations and a monitor that no connection "
+         "object hands the same message number to handle_message twice.",
     note=TRUST + "the property's own half-ring bound; handshake handlers do not touch the datagram window; message-level statement is partial "
          "(see known_findings.json).",
     design="§8 C04", technique="Lean 4 proof (window-refines-set + Nodup invariant over operation histories) + differential correspondence + kernels regenerated from the source by a translator and proved equal to the model (Props/Equiv*.lean)")
